@@ -98,8 +98,10 @@ func vpC01_O5() {
 		}
 	case 7: // split hidden attribute j into a disclosed part x and a hidden remainder
 		vpAssume(!isDisc[j])
+		// (the verifier uses SHA-256(x) as the exponent when x is longer than Lm bits, so does the adversary)
+		vpAssume(x.Sign() >= 0)
 		proof.ADisclosed[j] = x
-		proof.AResponses[j] = new(big.Int).Sub(proof.AResponses[j], new(big.Int).Mul(c, x))
+		proof.AResponses[j] = new(big.Int).Sub(proof.AResponses[j], new(big.Int).Mul(c, vpEff(x, pk)))
 	case 8: // hide a disclosed attribute behind an arbitrary response
 		vpAssume(isDisc[j])
 		delete(proof.ADisclosed, j)
